@@ -236,7 +236,7 @@ func TestCheck(t *testing.T) {
 			probs = append(probs, w.CompareState()...)
 		}
 		var real []string
-		for _, p := range probs {
+		for _, p := range mon.Quarantine(probs) {
 			if strings.HasPrefix(p, "INCONCLUSIVE|") {
 				run.Inconclusive(caseID + ": " + p[13:])
 				continue
